@@ -21,6 +21,7 @@
 //!   9 code       real instruction stream of the all-literal source: `const <value>` | `rt`
 //!  10 vallit     `compile_expression(all-literal).eval`: `ok <value>` | `err:<Kind>` | `panic`
 //!  11 valhoist   `compile_expression(all-hoisted).eval(ctx)`
+//!  12 cfg        environment configuration of the case (plain | html | formatter | nodebug | syntax)
 //!
 //! AST tokens: `k <value>` const | `v <name>` | `L n E*` | `T n E*` | `M n (E E)*` | `not E` |
 //! `neg E` | `b <op> E E` | `c n E (<op> E)*` | `call npos nkw E* (<name> E)*` | `X`.
@@ -159,6 +160,11 @@ fn dump_args(tag: &str, name: &str, first: Option<&ast::Expr>, args: &[ast::Call
         match a {
             ast::CallArg::Pos(e) if kws.is_empty() => pos.push(e),
             ast::CallArg::Kwarg(n, e) => kws.push((n, e)),
+            ast::CallArg::PosSplat(_) | ast::CallArg::KwargSplat(_) => {
+                // `*args` / `**kwargs`: outside the model's fragment, the hoisting oracle still applies
+                out.push("XS".into());
+                return true;
+            }
             _ => return false,
         }
     }
@@ -299,8 +305,28 @@ fn kw_impl(args: Rest<Value>, kwargs: Kwargs) -> Value {
     Value::from(vec![Value::from(args.0), Value::from(pairs)])
 }
 
-fn mk_env(mode: &str) -> Environment<'static> {
+fn mk_env(mode: &str, cfg: usize) -> Environment<'static> {
     let mut env = Environment::new();
+    match cfg {
+        1 => env.set_auto_escape_callback(|_| minijinja::AutoEscape::Html),
+        2 => env.set_formatter(|out, state, value| {
+            if value.is_none() {
+                out.write_str("NULL").map_err(Error::from)
+            } else {
+                minijinja::escape_formatter(out, state, value)
+            }
+        }),
+        3 => env.set_debug(false),
+        4 => env.set_syntax(
+            minijinja::syntax::SyntaxConfig::builder()
+                .variable_delimiters("@{", "}@")
+                .block_delimiters("<%", "%>")
+                .comment_delimiters("<#", "#>")
+                .build()
+                .unwrap(),
+        ),
+        _ => {}
+    }
     env.set_undefined_behavior(match mode {
         "lenient" => UndefinedBehavior::Lenient,
         "chainable" => UndefinedBehavior::Chainable,
@@ -339,7 +365,33 @@ struct Case {
     tmpl: bool,
 }
 
+fn fnv(s: &str) -> u64 {
+    s.bytes().fold(0xcbf29ce484222325u64, |h, b| (h ^ b as u64).wrapping_mul(0x100000001b3))
+}
+
+const CFGS: [&str; 5] = ["plain", "html", "formatter", "nodebug", "syntax"];
+const ENTRY_POINTS: [&str; 8] = [
+    "template_from_str", "render_str", "render_named_str", "add_template_owned", "render_captured_to", "render_captured",
+    "template_from_named_str", "expression_api",
+];
+
 impl Case {
+    /// environment configuration of this case (a function of the source, so replay needs no extra field)
+    fn cfg(&self) -> usize {
+        match fnv(&self.src) % 8 {
+            0..=3 => 0,
+            4 => 1,
+            5 => 2,
+            6 => 3,
+            _ => if self.tmpl { 0 } else { 4 },
+        }
+    }
+
+    /// `{{ E }}` in the syntax of the configuration
+    fn wrap(&self, e: &str) -> String {
+        if self.cfg() == 4 { format!("@{{ {} }}@", e) } else { format!("{{{{ {} }}}}", e) }
+    }
+
     fn key(&self) -> String {
         let spans = if self.spans.is_empty() {
             "-".to_string()
@@ -492,8 +544,35 @@ fn tmpl_outcome(env: &mut Environment<'static>, src: &str, ctx: &Value) -> (Stri
     ("ok".to_string(), parts.join("|"))
 }
 
+/// `{{ E }}` rendered through one of the public entry points
+fn render_via(env: &mut Environment<'static>, ep: usize, c: &Case, expr: &str, src: &str, ctx: &Value) -> Result<String, Error> {
+    match ep {
+        0 => env.template_from_str(src)?.render(ctx.clone()),
+        1 => env.render_str(src, ctx.clone()),
+        2 => env.render_named_str("n.txt", src, ctx.clone()),
+        3 => {
+            env.add_template_owned("e.txt", src.to_string())?;
+            env.get_template("e.txt")?.render(ctx.clone())
+        }
+        4 => {
+            let mut buf = Vec::new();
+            env.template_from_str(src)?.render_captured_to(ctx.clone(), &mut buf)?;
+            Ok(String::from_utf8(buf).unwrap())
+        }
+        5 => Ok(env.template_from_str(src)?.render_captured(ctx.clone())?.into_output()),
+        6 => env.template_from_named_str("n.txt", src)?.render(ctx.clone()),
+        _ => {
+            // Expression API: evaluate, then emit the value through a one-variable template
+            let v = env.compile_expression(expr)?.eval(ctx.clone())?;
+            let mut m = BTreeMap::new();
+            m.insert("x".to_string(), v);
+            env.render_str(&c.wrap("x"), Value::from(m))
+        }
+    }
+}
+
 fn run_case(c: &Case, rng: &mut Rng) -> String {
-    let mut env = mk_env(&c.mode);
+    let mut env = mk_env(&c.mode, c.cfg());
     let k = c.spans.len();
     // the values of the literal leaves, as the real front end builds them
     let mut ctx = BTreeMap::new();
@@ -514,17 +593,21 @@ fn run_case(c: &Case, rng: &mut Rng) -> String {
     let mut lit = String::new();
     let mut hoist = String::new();
     let mut diffs = vec![];
-    for m in &ms {
-        let src = if c.tmpl { c.variant(*m) } else { format!("{{{{ {} }}}}", c.variant(*m)) };
+    for (mi, m) in ms.iter().enumerate() {
+        let expr = c.variant(*m);
+        let src = if c.tmpl { expr.clone() } else { c.wrap(&expr) };
+        // the all-literal variant goes through `template_from_str`, the others rotate through every entry point
+        let ep = if *m == 0 || c.tmpl { 0 } else { ((fnv(&c.src) >> 8) as usize + mi) % ENTRY_POINTS.len() };
         let r = if c.tmpl {
             guarded(|| tmpl_outcome(&mut env, &src, &ctx))
         } else {
             guarded(|| {
-                let t = match env.template_from_str(&src) {
-                    Ok(t) => t,
-                    Err(e) => return (format!("err:{}", error_kind_name(&e)), format!("loaderr:{}", error_kind_name(&e))),
+                let r = render_via(&mut env, ep, c, &expr, &src, &ctx);
+                let o = match r {
+                    Ok(s) => format!("ok:{}", hex(s.as_bytes())),
+                    Err(e) => format!("err:{}", error_kind_name(&e)),
                 };
-                ("ok".to_string(), outcome(Ok(t.render(ctx.clone())), |s| format!("ok:{}", hex(s.as_bytes()))))
+                (if o == "err:SyntaxError" { o.clone() } else { "ok".to_string() }, o)
             })
         };
         let (l, o) = match r {
@@ -541,19 +624,20 @@ fn run_case(c: &Case, rng: &mut Rng) -> String {
             hoist = o.clone();
         }
         if o != lit {
-            diffs.push(format!("{:x}={}", m, o));
+            diffs.push(format!("{:x}@{}={}", m, ENTRY_POINTS[ep], o));
         }
     }
     if c.tmpl {
         return format!(
-            "{}\t-\t{}\t{}\t{}\t{}\t{}\t{}\t-\t-\t-\t-",
+            "{}\t-\t{}\t{}\t{}\t{}\t{}\t{}\t-\t-\t-\t-\t{}",
             c.key(),
             load,
             k,
             ms.len(),
             lit,
             hoist,
-            if diffs.is_empty() { "-".to_string() } else { diffs.join(";") }
+            if diffs.is_empty() { "-".to_string() } else { diffs.join(";") },
+            CFGS[c.cfg()]
         );
     }
     // the real front end on the all-literal source
@@ -590,7 +674,7 @@ fn run_case(c: &Case, rng: &mut Rng) -> String {
         |s| format!("ok {}", s),
     );
     format!(
-        "{}\t{}\t{}\t{}\t{}\t{}\t{}\t{}\t{}\t{}\t{}\t{}",
+        "{}\t{}\t{}\t{}\t{}\t{}\t{}\t{}\t{}\t{}\t{}\t{}\t{}",
         c.key(),
         asttok.join(" "),
         load,
@@ -602,7 +686,8 @@ fn run_case(c: &Case, rng: &mut Rng) -> String {
         fold,
         code,
         vallit,
-        valhoist
+        valhoist,
+        CFGS[c.cfg()]
     )
 }
 
@@ -619,6 +704,8 @@ enum G {
     Bin(&'static str, Box<G>, Box<G>),
     Chain(Box<G>, Vec<(&'static str, G)>),
     Call(Vec<G>, Vec<(&'static str, G)>),
+    /// `kw(pos…, *star, name=value…, **dstar)`
+    CallSplat(Vec<G>, Box<G>, Vec<(&'static str, G)>, Option<Box<G>>),
     /// `subject|name(args, kwargs)`
     Filt(&'static str, Box<G>, Vec<G>, Vec<(&'static str, G)>),
     /// `subject is [not] name(args)`
@@ -684,7 +771,7 @@ fn numish(g: &G) -> bool {
     match g {
         G::Lit(s) => !(s.starts_with('"') || s.starts_with('\'') || s.starts_with('[') || s.starts_with('(') || s.starts_with('{')),
         G::Var(_) => true,
-        G::List(_) | G::Tuple(_) | G::Map(_) | G::Call(..) | G::GetItem(..) | G::GetAttr(..) | G::Slice(..) => false,
+        G::List(_) | G::Tuple(_) | G::Map(_) | G::Call(..) | G::CallSplat(..) | G::GetItem(..) | G::GetAttr(..) | G::Slice(..) => false,
         G::Filt(name, a, args, _) => match *name {
             "length" | "abs" | "int" | "round" => true,
             "default" => numish(a) && args.iter().all(numish),
@@ -867,6 +954,18 @@ fn gen_bound(rng: &mut Rng, d: u32) -> Option<Box<G>> {
 /// productions that are never folded but sit between constants: item/attribute access, slices,
 /// conditional expressions, filters and tests
 fn gen_unfolded(rng: &mut Rng, d: u32) -> G {
+    if rng.chance(1, 30) {
+        // splat arguments switch `compile_call_args` to its list/merge paths (and static keyword arguments off)
+        let pos = (0..rng.below(2)).map(|_| gen_lit(rng)).collect();
+        let star = if rng.chance(2, 3) { G::List((0..rng.below(3)).map(|_| gen_lit(rng)).collect()) } else { gen_container(rng, d) };
+        let kws = (0..rng.below(3)).map(|_| (*rng.pick(&KWNAMES), gen_lit(rng))).collect();
+        let dstar = if rng.chance(1, 2) {
+            Some(Box::new(G::Map((0..rng.below(3)).map(|_| (G::Lit(rng.pick(&["\"ka\"", "\"kb\"", "\"kz\""]).to_string()), gen_lit(rng))).collect())))
+        } else {
+            None
+        };
+        return G::CallSplat(pos, Box::new(star), kws, dstar);
+    }
     match rng.below(26) {
         0..=3 => G::GetItem(Box::new(gen_container(rng, d)), Box::new(gen_index(rng, d))),
         4 => G::GetAttr(Box::new(if rng.chance(2, 3) { G::Lit(rng.pick(&["{\"a\": 1}", "{\"b\": 1, \"a\": 2}", "{}"]).to_string()) } else { gen_container(rng, d) }), *rng.pick(&ATTRS)),
@@ -957,7 +1056,7 @@ fn emit(g: &G, out: &mut String, spans: &mut Vec<(usize, usize)>) {
         }
         G::Neg(a) => {
             // `-kw(..)` parses as `(-kw)(..)`, `-x[0]` as `(-x)[0]`: keep the postfix form an operand of the negation
-            let wrap = matches!(**a, G::Call(..) | G::GetItem(..) | G::GetAttr(..) | G::Slice(..));
+            let wrap = matches!(**a, G::Call(..) | G::CallSplat(..) | G::GetItem(..) | G::GetAttr(..) | G::Slice(..));
             out.push_str(if wrap { "(-(" } else { "(-" });
             emit(a, out, spans);
             out.push_str(if wrap { "))" } else { ")" });
@@ -986,6 +1085,26 @@ fn emit(g: &G, out: &mut String, spans: &mut Vec<(usize, usize)>) {
             out.push_str("kw(");
             emit_list(pos, out, spans);
             emit_kws(pos.is_empty(), kws, out, spans);
+            out.push(')');
+        }
+        G::CallSplat(pos, star, kws, dstar) => {
+            out.push_str("kw(");
+            emit_list(pos, out, spans);
+            if !pos.is_empty() {
+                out.push_str(", ");
+            }
+            out.push('*');
+            emit(star, out, spans);
+            for (n, g) in kws {
+                out.push_str(", ");
+                out.push_str(n);
+                out.push('=');
+                emit(g, out, spans);
+            }
+            if let Some(d) = dstar {
+                out.push_str(", **");
+                emit(d, out, spans);
+            }
             out.push(')');
         }
         G::Filt(name, a, args, kws) => {
@@ -1375,7 +1494,8 @@ const SEEDS: &[&str] = &[
     "`170141183460469231731687303715884105728` + `1`", "`170141183460469231731687303715884105728` == `170141183460469231731687303715884105728`",
     "`170141183460469231731687303715884105728` < `340282366920938463463374607431768211455`", "`170141183460469231731687303715884105728` + `0.5`",
     "(-`170141183460469231731687303715884105727` - `1`) % -`1`", "(-`170141183460469231731687303715884105727` - `1`)|abs",
-    "{`1`: `2`, `1`: `3`}", "{`1`: `2`, `1.0`: `3`}", "{`1`: `2`, `true`: `3`}", "{`\"a\"`: `1`, `\"a\"`: `2`}",
+    "kw(*[`1`, `2`])", "kw(`0`, *`[1, 2]`, ka=`3`)", "kw(*[`1`], **{`\"ka\"`: `2`})", "kw(ka=`1`, **{`\"ka\"`: `2`, `\"kb\"`: `3`})", "kw(*`5`)", "kw(**`5`)",
+    "kw(*[`0` and `1`], ka=`1` // `0`)", "{`1`: `2`, `1`: `3`}", "{`1`: `2`, `1.0`: `3`}", "{`1`: `2`, `true`: `3`}", "{`\"a\"`: `1`, `\"a\"`: `2`}",
     "{`[1]`: `2`}", "{[`1`]: `2`}", "{`{}`: `2`}", "{`none`: `1`}", "{`2`: `1`, `1`: `2`}",
     "{`\"b\"`: `1`, `\"a\"`: `2`}", "{`1.5`: `1`}", "{`(1, 2)`: `3`}", "[`1`, `\"a\"`, `none`, `true`, `1.5`]",
     "`1.0`", "`1.5`", "`1e100`", "`1e400`", "`0.1` + `0.2`", "`1` / `3`", "`2` ** `0.5`", "`1e308` * `10`",
@@ -1412,6 +1532,24 @@ fn seed_case(mode: &str, s: &str) -> Case {
     Case { mode: mode.into(), src, spans, tmpl: false }
 }
 
+/// With `preserve_order` maps are IndexMaps keyed through `Hash`, and `true == 1` / `false == 0`
+/// hash differently (recorded finding of C07, `eq-vs-hash:Bool~Number`): whether such keys merge then
+/// depends on the per-map random hash seed, so the very same spelling can render differently from run
+/// to run.  Sources that build or index a map AND can produce a boolean are left out of that stream.
+fn po_unstable(src: &str, tmpl: bool) -> bool {
+    if !cfg!(feature = "preserve_order") {
+        return false;
+    }
+    let stripped = if tmpl { src.replace("{{ ", "").replace("{%", "") } else { src.to_string() };
+    let has_map = stripped.contains('{') || src.contains("dict(") || src.contains("**");
+    if !has_map {
+        return false;
+    }
+    let words: Vec<&str> = src.split(|c: char| !c.is_alphanumeric() && c != '_').collect();
+    words.iter().any(|w| matches!(*w, "true" | "false" | "True" | "False" | "not" | "in" | "is" | "defined" | "bool"))
+        || src.contains("==") || src.contains("!=") || src.contains('<') || src.contains('>')
+}
+
 const MODES: [&str; 4] = ["lenient", "strict", "chainable", "semistrict"];
 
 fn main() {
@@ -1419,12 +1557,18 @@ fn main() {
     let args: Vec<String> = std::env::args().collect();
     let out = std::io::stdout();
     let mut out = std::io::BufWriter::new(out.lock());
-    let mut rng = Rng::new(seed_from_env());
+    // consecutive seeds of `Rng::new` are the same stream shifted by one draw: spread them first
+    let mut rng = Rng::new(fnv(&format!("c04-seed-{}", seed_from_env())));
     match args.get(1).map(|s| s.as_str()) {
         Some("gen") => {
             let tier = args.get(2).map(|s| s.as_str()).unwrap_or("quick");
             let n = if tier == "thorough" { 400000 } else { 12000 };
+            // `gen <tier> small`: a quarter of the cases (used for the `preserve_order` build)
+            let n = if args.get(3).map_or(false, |s| s == "small") { n / 4 } else { n };
             for (i, s) in SEEDS.iter().enumerate() {
+                if po_unstable(s, false) {
+                    continue;
+                }
                 let uses_u = s.contains('u') && s.split(|c: char| !c.is_alphanumeric()).any(|w| w == "u");
                 if uses_u {
                     for m in MODES {
@@ -1435,12 +1579,13 @@ fn main() {
                 }
             }
             for i in 0..n {
-                let depth = 1 + (i % 5) as u32;
+                // depth 1..5, every 16th case deeper (6..8)
+                let depth = if i % 16 == 15 { 6 + (i / 16 % 3) as u32 } else { 1 + (i % 5) as u32 };
                 let g = gen(&mut rng, depth);
                 let mut src = String::new();
                 let mut spans = vec![];
                 emit(&g, &mut src, &mut spans);
-                if spans.len() > 40 || src.len() > 600 {
+                if spans.len() > 48 || src.len() > 900 || po_unstable(&src, false) {
                     continue;
                 }
                 let mode = *rng.pick(&MODES);
@@ -1448,6 +1593,9 @@ fn main() {
             }
             // the statement stream: literals in statement heads, defaults, include targets, …
             for (i, s) in STMT_SEEDS.iter().enumerate() {
+                if po_unstable(s, true) {
+                    continue;
+                }
                 let uses_u = s.contains(" u ") || s.contains("u|") || s.contains("if u");
                 for (j, m) in MODES.iter().enumerate() {
                     if uses_u || j == i % 4 {
@@ -1459,7 +1607,7 @@ fn main() {
             }
             for i in 0..n / 2 {
                 let (src, spans) = if i % 3 == 0 { gen_stmt(&mut rng) } else { gen_effect_stmt(&mut rng) };
-                if spans.len() > 40 || src.len() > 900 {
+                if spans.len() > 40 || src.len() > 900 || po_unstable(&src, true) {
                     continue;
                 }
                 let mode = *rng.pick(&MODES);
